@@ -125,7 +125,8 @@ def make_pyvis_net(
             for edge in vert.links:
 
                 # only draw arrows when we're at the *from* node
-                if vert is edge.v2:
+                # (a self-loop has its *from* node at both ends)
+                if vert is edge.v2 and vert is not edge.v1:
                     continue
 
                 other = edge.other(vert)
